@@ -12,7 +12,7 @@ import tempfile
 from . import build
 
 
-def main(argv):
+def run(quiet=False):
     scratch = tempfile.mkdtemp(prefix="agv-controls-", dir="/tmp")
     try:
         repo = os.path.join(scratch, "repo")
@@ -45,7 +45,19 @@ def main(argv):
                 "        print('ok       %%s %%s' %% (name, opens[:2] if opens else ''))\n"
                 "print('%%d controls, %%d unsound, %%d imprecise' %% (n, bad, weak))\n"
                 "sys.exit(1 if bad else 0)\n") % build.VERIF
-        p = subprocess.run([sys.executable, "-c", code], env=env)
-        return p.returncode
+        p = subprocess.run([sys.executable, "-c", code], env=env, stdout=subprocess.PIPE, stderr=subprocess.STDOUT, text=True)
+        if not quiet:
+            sys.stdout.write(p.stdout)
+        unsound = [l.split()[1].rstrip(":") for l in p.stdout.splitlines() if l.startswith("UNSOUND")]
+        weak = [l.split()[1].rstrip(":") for l in p.stdout.splitlines() if l.startswith("weak")]
+        n = len([l for l in p.stdout.splitlines() if l.startswith(("ok ", "UNSOUND", "weak"))])
+        if p.returncode not in (0, 1) or n == 0:
+            raise RuntimeError("controls run failed: %s" % p.stdout[-400:])
+        return n, unsound, weak
     finally:
         shutil.rmtree(scratch, ignore_errors=True)
+
+
+def main(argv):
+    n, unsound, weak = run()
+    return 1 if unsound else 0
